@@ -29,11 +29,11 @@ def schema(marks: Tuple[str, ...]) -> Dict[str, str]:
     main = ('proto main\nimport "lib.bitproto"\nenum Kind : uint3 {\n    KIND_A = 0\n    KIND_B = 5\n}\n'
             f"message sensor_data{m('msg')} {{\n    uint7 raw = 1\n    int13[2]{m('arr')} vals = 2\n}}\n"
             f"message Outer {{\n    message Inner{m('nested')} {{\n        Kind k = 1\n        bool b = 2\n    }}\n    Inner i = 1\n    lib.Pt p = 2\n    lib.Row r = 3\n    sensor_data s = 4\n}}\n"
-            "message Tail {\n    byte[3] raw = 1\n    Outer o = 2\n}\n")
+            "message Tail {\n    byte[3] raw = 1\n    Outer o = 2\n}\nmessage Nothing {\n}\n")
     return {"main.bitproto": main, "lib.bitproto": lib, "deep.bitproto": deep}
 
 
-MSGS = ["sensor_data", "Inner", "Outer", "Tail"]
+MSGS = ["sensor_data", "Inner", "Outer", "Tail", "Nothing"]
 
 
 class _Fatal(Exception):
@@ -170,7 +170,7 @@ def decl_lines(src: str) -> List[str]:
     return keep
 
 
-CNAME = {"sensor_data": "SensorData", "Inner": "OuterInner", "Outer": "Outer", "Tail": "Tail"}
+CNAME = {"sensor_data": "SensorData", "Inner": "OuterInner", "Outer": "Outer", "Tail": "Tail", "Nothing": "Nothing"}
 
 
 def work_filter(job: Tuple[str, str, Tuple[str, ...]]) -> Dict[str, Any]:
